@@ -128,16 +128,700 @@ Section Staging.
   Proof.
     unfold sock_write. intros H.
     assert (Hlen : bs <> [] -> 0 < Z.of_nat (length bs)) by (destruct bs; cbn; [congruence | lia]).
+    assert (Hfn : firstn (Z.to_nat (Z.of_nat (length bs))) bs = bs) by (rewrite Nat2Z.id; apply firstn_all).
+    unfold wside_frame.
     destruct (w_disc w) eqn:Ed.
-    { inversion H; subst; cbn. repeat split; auto. left; split; [lia | reflexivity]. intros _ ?; discriminate. }
+    { inversion H; subst; cbn. intuition (auto; try lia; try congruence). }
     destruct (w_tx w) as [|t rest] eqn:Et.
-    { inversion H; subst; cbn. repeat split; auto. right. repeat split; auto; try lia. }
-    destruct t.
-    - inversion H; subst; cbn. repeat split; auto. right; repeat split; auto; lia. intros; discriminate.
-    - destruct (n <=? 0) eqn:En.
-      + inversion H; subst; cbn. repeat split; auto. left; split; [lia | reflexivity]. intros; discriminate.
-      + inversion H; subst; cbn. repeat split; auto. right; repeat split; auto; try lia. intros; discriminate.
-    - inversion H; subst; cbn. repeat split; auto. left; split; [lia | reflexivity]. intros; discriminate.
-    - inversion H; subst; cbn. repeat split; auto. left; split; [lia | reflexivity]. intros; discriminate.
+    { inversion H; subst; cbn. intuition (auto; try lia; try congruence). }
+    destruct t; [| destruct (n <=? 0) eqn:En | |];
+      inversion H; subst; cbn; intuition (auto; try lia; try congruence).
+  Qed.
+
+  Lemma next_write_spec bs (w : world) r w1 :
+    next_write bs w = (r, w1) ->
+    wside_frame w w1 /\ w_z w1 = w_z w /\ w_out w1 = w_out w /\ w_q w1 = w_q w /\ w_disc w1 = w_disc w /\
+    w_fault w1 = w_fault w /\
+    ((r < 0 /\ w_wire w1 = w_wire w) \/
+     ((bs <> [] -> 0 < r) /\ 0 <= r <= Z.of_nat (length bs) /\
+      w_wire w1 = w_wire w ++ firstn (Z.to_nat r) bs /\ w_error w1 = w_error w)) /\
+    (w_tx w = [] -> w_disc w = false -> r = Z.of_nat (length bs) /\ w_tx w1 = [] /\ w_error w1 = w_error w).
+  Proof.
+    unfold next_write. intros H.
+    destruct (sock_write bs w) as [r0 w0] eqn:E.
+    apply sock_write_spec in E. unfold wside_frame in *.
+    destruct ((r0 <? 0) && negb (recoverable (w_errno w0))) eqn:Eb;
+      inversion H; subst; cbn;
+      (assert (Hr : r < 0 \/ 0 <= r) by lia; destruct Hr as [Hr|Hr];
+       [| apply andb_true_iff in Eb || idtac]); try (destruct Eb as [Eb _]; apply Z.ltb_lt in Eb);
+      intuition (auto; try lia; try congruence).
+  Qed.
+
+  Lemma try_write_spec force (w : world) r w1 :
+    try_write force w = (r, w1) ->
+    wside_frame w w1 /\ w_z w1 = w_z w /\ w_q w1 = w_q w /\ w_disc w1 = w_disc w /\ w_fault w1 = w_fault w /\
+    w_wire w1 ++ w_out w1 = w_wire w ++ w_out w /\
+    (length (w_out w1) <= length (w_out w))%nat /\
+    (0 <= r -> w_error w1 = w_error w /\ ((length (w_out w) <= bufsz)%nat -> (length (w_out w1) < bufsz)%nat \/ force = true)) /\
+    (w_tx w = [] -> w_disc w = false ->
+       0 <= r /\ w_tx w1 = [] /\ w_error w1 = w_error w /\
+       (force = true \/ length (w_out w) = bufsz -> w_out w1 = [])).
+  Proof.
+    unfold try_write. intros H.
+    destruct ((Nat.eqb (length (w_out w)) bufsz || force) && negb (Nat.eqb (length (w_out w)) 0)) eqn:Eg.
+    - destruct (next_write (w_out w) w) as [ret w0] eqn:E.
+      apply next_write_spec in E.
+      apply andb_true_iff in Eg. destruct Eg as [Eg1 Eg2].
+      apply negb_true_iff, Nat.eqb_neq in Eg2.
+      assert (Hne : w_out w <> []) by (destruct (w_out w); cbn in *; congruence).
+      destruct (ret <? 0) eqn:Er.
+      + apply Z.ltb_lt in Er. inversion H; subst. unfold wside_frame in *.
+        destruct E as (F & Hz & Ho & Hq & Hd & Hf & Hw & Hc).
+        destruct Hw as [[_ Hw]|[Hp _]]; [|specialize (Hp Hne); lia].
+        assert (Hcat : w_wire w1 ++ w_out w1 = w_wire w ++ w_out w) by (rewrite Hw, Ho; reflexivity).
+        assert (Hlen : (length (w_out w1) <= length (w_out w))%nat) by (rewrite Ho; lia).
+        intuition (auto; try lia; try congruence).
+      + apply Z.ltb_ge in Er. inversion H; subst. cbn. unfold wside_frame in *.
+        destruct E as (F & Hz & Ho & Hq & Hd & Hf & Hw & Hc).
+        destruct Hw as [[Hneg _]|(Hp & Hrng & Hw & He)]; [lia|].
+        specialize (Hp Hne).
+        assert (Hsk : (length (skipn (Z.to_nat r) (w_out w)) = length (w_out w) - Z.to_nat r)%nat) by apply skipn_length.
+        assert (Hcat : w_wire w0 ++ skipn (Z.to_nat r) (w_out w) = w_wire w ++ w_out w)
+          by (rewrite Hw, <- app_assoc, firstn_skipn; reflexivity).
+        assert (Hroom : (length (w_out w) <= bufsz)%nat -> (length (skipn (Z.to_nat r) (w_out w)) < bufsz)%nat \/ force = true).
+        { intros Hle. apply orb_true_iff in Eg1. destruct Eg1 as [Eg1|Eg1]; [|now right].
+          apply Nat.eqb_eq in Eg1. left. lia. }
+        assert (Hall : r = Z.of_nat (length (w_out w)) -> skipn (Z.to_nat r) (w_out w) = []).
+        { intros ->. rewrite Nat2Z.id. apply skipn_all. }
+        intuition (auto; try lia; try congruence).
+    - inversion H; subst. unfold wside_frame.
+      assert (Hroom : (length (w_out w1) <= bufsz)%nat -> (length (w_out w1) < bufsz)%nat \/ force = true).
+      { intros Hle. apply andb_false_iff in Eg. destruct Eg as [Eg|Eg].
+        * apply orb_false_iff in Eg. destruct Eg as [Eg _]. apply Nat.eqb_neq in Eg. left; lia.
+        * apply negb_false_iff, Nat.eqb_eq in Eg. left; lia. }
+      assert (Hemp : force = true \/ length (w_out w1) = bufsz -> w_out w1 = []).
+      { intros [Hf|Hf].
+        * subst force. rewrite orb_true_r in Eg. cbn in Eg. apply negb_false_iff, Nat.eqb_eq in Eg.
+          destruct (w_out w1); [reflexivity | discriminate].
+        * rewrite Hf, Nat.eqb_refl in Eg. cbn in Eg. apply negb_false_iff, Nat.eqb_eq in Eg. lia. }
+      intuition (auto; try lia; try congruence).
+  Qed.
+
+  (* ------------------------------------------------------------------ _compression_write *)
+  Lemma skipn_nonnil {A} n (l : list A) : (n < length l)%nat -> skipn n l <> [].
+  Proof. intros H E. apply (f_equal (@length A)) in E. rewrite skipn_length in E. cbn in E. lia. Qed.
+
+  Lemma cw_loop_spec fuel : forall buff off fl (w : world) cin ret r w',
+    DRr (w_z w) cin (w_wire w ++ w_out w) -> (length (w_out w) <= bufsz)%nat -> (off <= length buff)%nat ->
+    (is_flush fl = false -> (off < length buff)%nat) -> (is_flush fl = true -> buff = []) ->
+    cw_loop fuel buff off fl w = (ret, r, w') ->
+    wside_frame w w' /\ w_q w' = w_q w /\ w_disc w' = w_disc w /\ mono w w' /\
+    exists off', (off <= off' <= length buff)%nat /\
+      DRr (w_z w') (cin ++ firstn (off' - off) (skipn off buff)) (w_wire w' ++ w_out w') /\
+      (length (w_out w') <= bufsz)%nat /\
+      (w_fault w' = NoFault ->
+         (ret = true -> (off' = O -> r < 0) /\ (off' <> O -> r = Z.of_nat off')) /\
+         (ret = false -> is_flush fl = false -> off' = length buff /\ r = Z.of_nat off')) /\
+      (w_tx w = [] -> w_disc w = false -> w_fault w' = NoFault ->
+         ret = false /\ w_tx w' = [] /\ w_error w' = w_error w /\
+         (is_flush fl = true -> dec (w_wire w' ++ w_out w') = cin /\ fp (w_wire w' ++ w_out w'))).
+  Proof.
+    induction fuel as [|f IH]; intros buff off fl w cin ret r w' HDR Hout Hoff Hnf Hfl H.
+    - cbn in H. inversion H; subst ret r w'. clear H.
+      pose proof (raise_fault FFuel w) as [Hf|Hf]; [|discriminate].
+      pose proof (raise_mono FFuel w) as Hm.
+      assert (Hfr : wside_frame w (raise FFuel w) /\ w_q (raise FFuel w) = w_q w /\ w_disc (raise FFuel w) = w_disc w /\
+                    w_z (raise FFuel w) = w_z w /\ w_wire (raise FFuel w) = w_wire w /\ w_out (raise FFuel w) = w_out w).
+      { unfold raise, wside_frame. destruct (w_fault w); cbn; repeat split; reflexivity. }
+      destruct Hfr as (F & Hq & Hd & Hz & Hwi & Ho).
+      split; [exact F|]. split; [exact Hq|]. split; [exact Hd|]. split; [exact Hm|].
+      exists off. rewrite Nat.sub_diag. cbn [firstn]. rewrite app_nil_r, Hz, Hwi, Ho.
+      split; [lia|]. split; [exact HDR|]. split; [exact Hout|].
+      split; intros; contradiction.
+    - cbn [CompressionModel.cw_loop] in H.
+      destruct (try_write false w) as [r0 w1] eqn:Etw.
+      apply try_write_spec in Etw.
+      destruct Etw as (F1 & Hz1 & Hq1 & Hd1 & Hf1 & Hcat1 & Hlen1 & Hok1 & Hcomp1).
+      assert (Hm1 : mono w w1) by (unfold mono; rewrite Hf1, Hd1; tauto).
+      assert (HDR1 : DRr (w_z w1) cin (w_wire w1 ++ w_out w1)) by (rewrite Hz1, Hcat1; exact HDR).
+      destruct (r0 <? 0) eqn:Er0.
+      + apply Z.ltb_lt in Er0. injection H as Eret Er Ew. subst ret w'.
+        split; [exact F1|]. split; [exact Hq1|]. split; [exact Hd1|]. split; [exact Hm1|].
+        exists off. rewrite Nat.sub_diag. cbn [firstn]. rewrite app_nil_r.
+        split; [lia|]. split; [exact HDR1|]. split; [lia|].
+        split.
+        * intros _. split; [|intros; discriminate].
+          intros _. split; intros Ho.
+          -- subst off. cbn in Er. subst r. exact Er0.
+          -- destruct (Nat.eqb off 0) eqn:E0; [apply Nat.eqb_eq in E0; lia | subst r; reflexivity].
+        * intros Ht Hdd _. destruct (Hcomp1 Ht Hdd) as (Hx & _). lia.
+      + apply Z.ltb_ge in Er0.
+        destruct (Hok1 Er0) as (He1 & Hroom1).
+        destruct (Hroom1 Hout) as [Hroom|Hroom]; [|discriminate].
+        set (inp := skipn off buff) in *.
+        set (room := (bufsz - length (w_out w1))%nat) in *.
+        assert (Hrpos : (0 < room)%nat) by (subst room; lia).
+        destruct (deflate_step (w_z w1) inp room fl) as [[[z' k] outp] st] eqn:Eds.
+        destruct (zc_d_bounds _ _ _ _ _ _ _ _ _ HC _ _ _ _ _ _ _ _ _ _ HDR1 Hrpos Eds) as [Hk Ho].
+        assert (Hinplen : length inp = (length buff - off)%nat) by (subst inp; apply skipn_length).
+        assert (Eoob : Nat.ltb room (length outp) || Nat.ltb (length inp) k = false).
+        { apply orb_false_iff; split; apply Nat.ltb_ge; lia. }
+        rewrite Eoob in H.
+        pose proof (DR_step _ deflate_step z0 _ _ _ _ _ _ _ _ _ _ HDR1 Hrpos Eds) as HDR2.
+        destruct (zc_d_status _ _ _ _ _ _ _ _ _ HC _ _ _ _ _ _ _ _ _ _ HDR1 Hrpos Eds) as [Hst1 Hst2].
+        set (w2 := set_out (w_out w1 ++ outp) (set_z z' w1)) in *.
+        assert (Hw2out : length (w_out w2) = (length (w_out w1) + length outp)%nat) by (subst w2; cbn; apply app_length).
+        assert (HDR2' : DRr (w_z w2) (cin ++ firstn k inp) (w_wire w2 ++ w_out w2))
+          by (subst w2; cbn; rewrite app_assoc; exact HDR2).
+        assert (Hfr2 : wside_frame w w2) by (subst w2; unfold wside_frame in *; cbn; intuition congruence).
+        assert (Hm2 : mono w w2) by (subst w2; unfold mono; cbn; rewrite Hf1, Hd1; tauto).
+        assert (Hq2 : w_q w2 = w_q w) by (subst w2; cbn; exact Hq1).
+        assert (Hd2 : w_disc w2 = w_disc w) by (subst w2; cbn; exact Hd1).
+        assert (Ht2 : w_tx w2 = w_tx w1) by (subst w2; reflexivity).
+        assert (He2 : w_error w2 = w_error w) by (subst w2; cbn; exact He1).
+        assert (Hf2 : w_fault w2 = w_fault w) by (subst w2; cbn; exact Hf1).
+        destruct (is_flush fl) eqn:Efl.
+        * (* flush: no input *)
+          assert (Hb : buff = []) by auto. subst buff. cbn in Hoff. assert (off = O) by lia. subst off.
+          assert (Hinp : inp = []) by (subst inp; reflexivity).
+          assert (Hk0 : k = O) by (rewrite Hinp in Hk; cbn in Hk; lia).
+          subst k. rewrite Hinp in *. cbn [firstn] in *. rewrite app_nil_r in *.
+          destruct (Hst2 eq_refl eq_refl) as [Hst|Hst]; subst st.
+          -- cbn [Nat.add length Nat.ltb Nat.leb orb andb] in H.
+             destruct (Nat.eqb (length (w_out w2)) bufsz) eqn:Efull.
+             ++ (* buffer full: go round again *)
+                apply Nat.eqb_eq in Efull.
+                specialize (IH [] O fl w2 cin ret r w' HDR2').
+                destruct IH as (F3 & Hq3 & Hd3 & Hm3 & off' & Hoff' & HDR3 & Hout3 & Hres3 & Hcomp3); auto; try lia.
+                { intros; congruence. }
+                split; [eapply wside_trans; eauto|]. split; [congruence|]. split; [congruence|].
+                split; [eapply mono_trans; eauto|].
+                exists off'. split; [exact Hoff'|]. split; [exact HDR3|]. split; [exact Hout3|].
+                rewrite Efl in Hres3, Hcomp3.
+                split; [exact Hres3|].
+                intros Ht Hdd Hf. destruct (Hcomp1 Ht Hdd) as (_ & Ht1 & _).
+                destruct Hcomp3 as (Hr3 & Ht3 & He3 & Hd4); auto; try congruence.
+                split; [exact Hr3|]. split; [exact Ht3|]. split; [congruence|]. exact Hd4.
+             ++ (* room left: the flush is complete *)
+                apply Nat.eqb_neq in Efull. inversion H; subst ret r w'. clear H.
+                assert (Hlt : (length outp < room)%nat) by (subst room; lia).
+                destruct (zc_d_flush _ _ _ _ _ _ _ _ _ HC _ _ _ _ _ _ _ _ _ HDR1 Hrpos Efl Eds Hlt) as (_ & Hdec & Hfp).
+                rewrite app_nil_r in Hdec.
+                split; [exact Hfr2|]. split; [exact Hq2|]. split; [exact Hd2|]. split; [exact Hm2|].
+                exists O. cbn [Nat.sub skipn firstn]. rewrite app_nil_r.
+                split; [cbn; lia|]. split; [exact HDR2'|]. split; [lia|].
+                split.
+                ** intros _. split; intros; discriminate.
+                ** intros Ht Hdd _. destruct (Hcomp1 Ht Hdd) as (_ & Ht1 & _).
+                   split; [reflexivity|]. split; [congruence|]. split; [exact He2|].
+                   intros _. subst w2; cbn. rewrite app_assoc. split; [exact Hdec | exact Hfp].
+          -- (* nothing to flush *)
+             inversion H; subst ret r w'. clear H.
+             destruct (zc_d_idle _ _ _ _ _ _ _ _ _ HC _ _ _ _ _ _ _ _ HDR1 Hrpos Efl Eds) as (_ & Hoe & Hdec & Hfp).
+             subst outp.
+             split; [exact Hfr2|]. split; [exact Hq2|]. split; [exact Hd2|]. split; [exact Hm2|].
+             exists O. cbn [Nat.sub skipn firstn]. rewrite app_nil_r.
+             split; [cbn; lia|]. split; [exact HDR2'|]. split; [lia|].
+             split.
+             ** intros _. split; intros; discriminate.
+             ** intros Ht Hdd _. destruct (Hcomp1 Ht Hdd) as (_ & Ht1 & _).
+                split; [reflexivity|]. split; [congruence|]. split; [exact He2|].
+                intros _. subst w2; cbn. rewrite app_nil_r. split; [exact Hdec | exact Hfp].
+        * (* no flush: input left *)
+          assert (Hlt : (off < length buff)%nat) by auto.
+          assert (Hinp : inp <> []) by (subst inp; apply skipn_nonnil; exact Hlt).
+          rewrite (Hst1 eq_refl Hinp) in H. cbn [andb] in H. rewrite orb_false_r in H.
+          destruct (Nat.ltb (off + k) (length buff)) eqn:Emore.
+          -- apply Nat.ltb_lt in Emore.
+             specialize (IH buff (off + k)%nat fl w2 (cin ++ firstn k inp) ret r w' HDR2').
+             destruct IH as (F3 & Hq3 & Hd3 & Hm3 & off' & Hoff' & HDR3 & Hout3 & Hres3 & Hcomp3); auto; try lia.
+             { intros; congruence. }
+             assert (Hcin : (cin ++ firstn k inp) ++ firstn (off' - (off + k)) (skipn (off + k) buff)
+                            = cin ++ firstn (off' - off) (skipn off buff)).
+             { rewrite <- app_assoc. f_equal. subst inp. rewrite <- skipn_skipn.
+               rewrite firstn_add_skipn. f_equal. lia. }
+             rewrite Hcin in HDR3.
+             split; [eapply wside_trans; eauto|]. split; [congruence|]. split; [congruence|].
+             split; [eapply mono_trans; eauto|].
+             exists off'. split; [lia|]. split; [exact HDR3|]. split; [exact Hout3|].
+             rewrite Efl in Hres3, Hcomp3.
+             split; [exact Hres3|].
+             intros Ht Hdd Hf. destruct (Hcomp1 Ht Hdd) as (_ & Ht1 & _).
+             destruct Hcomp3 as (Hr3 & Ht3 & He3 & Hd4); auto; try congruence.
+             split; [exact Hr3|]. split; [exact Ht3|]. split; [congruence|]. intros; discriminate.
+          -- apply Nat.ltb_ge in Emore. inversion H; subst ret r w'. clear H.
+             split; [exact Hfr2|]. split; [exact Hq2|]. split; [exact Hd2|]. split; [exact Hm2|].
+             exists (off + k)%nat.
+             replace (off + k - off)%nat with k by lia.
+             split; [lia|]. split; [exact HDR2'|]. split; [lia|].
+             split.
+             ** intros _. split; [intros; discriminate|]. intros _ _. split; [lia | reflexivity].
+             ** intros Ht Hdd _. destruct (Hcomp1 Ht Hdd) as (_ & Ht1 & _).
+                split; [reflexivity|]. split; [congruence|]. split; [exact He2|]. intros; discriminate.
+  Qed.
+
+  (* unconditional part: what the write side leaves alone, and stickiness *)
+  Definition wlight (w w' : world) : Prop := wside_frame w w' /\ mono w w'.
+  Lemma wlight_refl (w : world) : wlight w w. Proof. split; [apply wside_refl | apply mono_refl]. Qed.
+  Lemma wlight_trans (a b c : world) : wlight a b -> wlight b c -> wlight a c.
+  Proof. intros [A B] [C D]. split; [eapply wside_trans | eapply mono_trans]; eauto. Qed.
+  Lemma wlight_raise f (w : world) : wlight w (raise f w).
+  Proof. split; [|apply raise_mono]. unfold raise, wside_frame. destruct (w_fault w); cbn; repeat split. Qed.
+  Lemma wlight_disc (w : world) : wlight w (conn_disconnect w).
+  Proof. split; [|apply disc_mono]. unfold conn_disconnect, wside_frame. destruct (w_disc w); cbn; repeat split. Qed.
+  Lemma wlight_try force (w : world) : wlight w (snd (try_write force w)).
+  Proof.
+    destruct (try_write force w) as [r w1] eqn:E. apply try_write_spec in E. cbn.
+    destruct E as (F & _ & _ & Hd & Hf & _). split; [exact F|]. unfold mono. rewrite Hd, Hf. tauto.
+  Qed.
+
+  Lemma cw_loop_light fuel : forall buff off fl (w : world), wlight w (snd (cw_loop fuel buff off fl w)).
+  Proof.
+    induction fuel as [|f IH]; intros buff off fl w.
+    - cbn. apply wlight_raise.
+    - cbn [CompressionModel.cw_loop].
+      pose proof (wlight_try false w) as L1.
+      destruct (try_write false w) as [r0 w1]. cbn [snd] in L1.
+      destruct (r0 <? 0); [exact L1|].
+      destruct (deflate_step (w_z w1) (skipn off buff) (bufsz - length (w_out w1)) fl) as [[[z' k] outp] st].
+      destruct (_ || _); [cbn; eapply wlight_trans; [exact L1 | apply wlight_raise]|].
+      set (w2 := set_out (w_out w1 ++ outp) (set_z z' w1)).
+      assert (L2 : wlight w w2).
+      { eapply wlight_trans; [exact L1|]. subst w2. split; [unfold wside_frame|unfold mono]; cbn; tauto. }
+      assert (Lf : forall c, wlight w (conn_disconnect (set_error c w2))).
+      { intros c. eapply wlight_trans; [exact L2|]. eapply wlight_trans; [|apply wlight_disc].
+        split; [unfold wside_frame|unfold mono]; cbn; tauto. }
+      destruct st; cbn [snd].
+      + destruct (_ || _); [eapply wlight_trans; [exact L2 | apply IH] | exact L2].
+      + exact L2.
+      + destruct (is_flush fl); [exact L2 | apply Lf].
+      + apply Lf.
+  Qed.
+
+  Lemma cwr_light buff fl (w : world) : wlight w (snd (compression_write_raw buff fl w)).
+  Proof.
+    unfold compression_write_raw.
+    pose proof (cw_loop_light (length buff + loopfuel) buff 0 fl w) as L.
+    destruct (cw_loop (length buff + loopfuel) buff 0 fl w) as [[ret r] w1]. cbn [snd] in L.
+    destruct ret; [exact L|]. destruct (is_flush fl); [|exact L].
+    pose proof (wlight_try true w1) as L2. destruct (try_write true w1) as [r2 w2]. cbn [snd] in *.
+    eapply wlight_trans; eauto.
+  Qed.
+
+  Lemma top_write_light e (w : world) : wlight w (snd (top_write e w)).
+  Proof.
+    unfold top_write, compression_write.
+    destruct (is_nil e).
+    - cbn. split; [unfold wside_frame|unfold mono]; cbn; tauto.
+    - pose proof (cwr_light e (flush_of_code flush_code_write) w) as L.
+      destruct (compression_write_raw e (flush_of_code flush_code_write) w) as [r w1]. cbn [snd] in *.
+      eapply wlight_trans; [exact L|].
+      destruct (_ && _); split; [unfold wside_frame|unfold mono|unfold wside_frame|unfold mono]; cbn; tauto.
+  Qed.
+
+  Lemma send_elems_light es : forall (w : world), wlight w (send_elems es w).
+  Proof.
+    induction es as [|e rest IH]; intros w; cbn [CompressionModel.send_elems].
+    - split; [unfold wside_frame|unfold mono]; cbn; tauto.
+    - pose proof (top_write_light e w) as L. destruct (top_write e w) as [ret w1]. cbn [snd] in L.
+      destruct (ret =? _); [eapply wlight_trans; [exact L | apply IH]|].
+      destruct (_ && _); (eapply wlight_trans; [exact L|]);
+        split; [unfold wside_frame|unfold mono|unfold wside_frame|unfold mono]; cbn; tauto.
+  Qed.
+
+  Lemma send_phase_light (w : world) : wlight w (send_phase w).
+  Proof.
+    unfold send_phase. destruct (w_disc w); [apply wlight_refl|].
+    pose proof (send_elems_light (w_q w) w) as L1.
+    unfold compression_flush.
+    pose proof (cwr_light [] (flush_of_code (if w_dont_reset (send_elems (w_q w) w) then flush_code_dont_reset else flush_code_reset)) (send_elems (w_q w) w)) as L2.
+    destruct (compression_write_raw _ _ _) as [r w2]. cbn [snd] in L2.
+    destruct (w_error w2 =? 0); [eapply wlight_trans; eauto|].
+    eapply wlight_trans; [exact L1|]. eapply wlight_trans; [exact L2|]. eapply wlight_trans; [|apply wlight_disc].
+    split; [unfold wside_frame|unfold mono]; cbn; tauto.
+  Qed.
+
+  (* ------------------------------------------------------------------ the invariant of the write side *)
+  Definition OInvQ (w : world) (q : list (list Z)) : Prop :=
+    exists cin, DRr (w_z w) cin (w_wire w ++ w_out w) /\ (length (w_out w) <= bufsz)%nat /\
+                w_sub w = cin ++ concat q.
+  Definition OInv (w : world) : Prop := OInvQ w (w_q w).
+
+  Lemma cwr_spec buff fl (w : world) cin r w' :
+    DRr (w_z w) cin (w_wire w ++ w_out w) -> (length (w_out w) <= bufsz)%nat ->
+    (is_flush fl = false -> buff <> []) -> (is_flush fl = true -> buff = []) ->
+    compression_write_raw buff fl w = (r, w') ->
+    w_q w' = w_q w /\ w_disc w' = w_disc w /\
+    exists c, (c <= length buff)%nat /\
+      DRr (w_z w') (cin ++ firstn c buff) (w_wire w' ++ w_out w') /\ (length (w_out w') <= bufsz)%nat /\
+      (w_fault w' = NoFault -> is_flush fl = false -> (r < 0 /\ c = O) \/ (r = Z.of_nat c /\ c <> O)) /\
+      (w_tx w = [] -> w_disc w = false -> w_fault w' = NoFault ->
+         w_tx w' = [] /\ w_error w' = w_error w /\
+         (is_flush fl = false -> c = length buff /\ r = Z.of_nat c) /\
+         (is_flush fl = true -> dec (w_wire w') = cin /\ w_out w' = [] /\ fp (w_wire w'))).
+  Proof.
+    intros HDR Hout Hnf Hfl H. unfold compression_write_raw in H.
+    destruct (cw_loop (length buff + loopfuel) buff 0 fl w) as [[ret r1] w1] eqn:E.
+    assert (Hnf' : is_flush fl = false -> (0 < length buff)%nat).
+    { intros X. specialize (Hnf X). destruct buff; cbn; [congruence | lia]. }
+    apply (cw_loop_spec _ _ _ _ _ cin) in E; auto; try lia.
+    destruct E as (F1 & Hq1 & Hd1 & Hm1 & off' & Hoff' & HDR1 & Hout1 & Hres1 & Hcomp1).
+    rewrite Nat.sub_0_r in HDR1. cbn [skipn] in HDR1.
+    destruct ret.
+    - injection H as Er Ew. subst r1 w1.
+      split; [exact Hq1|]. split; [exact Hd1|].
+      exists off'. split; [lia|]. split; [exact HDR1|]. split; [exact Hout1|].
+      split.
+      + intros Hf _. destruct (Hres1 Hf) as [A _]. destruct (A eq_refl) as [A1 A2].
+        destruct off'; [left; split; auto | right; split; auto].
+      + intros Ht Hdd Hf. destruct (Hcomp1 Ht Hdd Hf) as (X & _). discriminate.
+    - destruct (is_flush fl) eqn:Efl.
+      + destruct (try_write true w1) as [r2 w2] eqn:Etw. injection H as Er Ew. subst r2 w2.
+        apply try_write_spec in Etw.
+        destruct Etw as (F2 & Hz2 & Hq2 & Hd2 & Hf2 & Hcat2 & Hlen2 & Hok2 & Hcomp2).
+        split; [congruence|]. split; [congruence|].
+        exists off'. split; [lia|]. split; [rewrite Hz2, Hcat2; exact HDR1|]. split; [lia|].
+        split; [intros; discriminate|].
+        intros Ht Hdd Hf. rewrite Hf2 in Hf.
+        destruct (Hcomp1 Ht Hdd Hf) as (_ & Ht1 & He1 & Hd4).
+        destruct (Hd4 eq_refl) as (Hdec & Hfp).
+        rewrite Hd1 in Hcomp2. destruct (Hcomp2 Ht1 Hdd) as (_ & Ht2 & He2 & Hemp).
+        specialize (Hemp (or_introl eq_refl)).
+        rewrite Hemp, app_nil_r in Hcat2.
+        split; [exact Ht2|]. split; [congruence|]. split; [intros; discriminate|].
+        intros _. rewrite Hcat2. split; [exact Hdec|]. split; [exact Hemp | exact Hfp].
+      + injection H as Er Ew. subst r1 w1.
+        split; [exact Hq1|]. split; [exact Hd1|].
+        exists off'. split; [lia|]. split; [exact HDR1|]. split; [exact Hout1|].
+        split.
+        * intros Hf _. destruct (Hres1 Hf) as [_ B]. destruct (B eq_refl eq_refl) as [B1 B2].
+          right. split; [exact B2|]. specialize (Hnf' eq_refl). lia.
+        * intros Ht Hdd Hf. destruct (Hcomp1 Ht Hdd Hf) as (_ & Ht1 & He1 & _).
+          destruct (Hres1 Hf) as [_ B]. destruct (B eq_refl eq_refl) as [B1 B2].
+          split; [exact Ht1|]. split; [exact He1|]. split; [intros _; split; assumption | intros; discriminate].
+  Qed.
+
+  Lemma flush_of_write : flush_of_code flush_code_write = NoFlush.
+  Proof. exact (proj1 (proj2 (proj2 Gen_compression_ok))). Qed.
+  Lemma flush_of_flush b : is_flush (flush_of_code (if b : bool then flush_code_dont_reset else flush_code_reset)) = true.
+  Proof.
+    destruct Gen_compression_ok as (_ & _ & _ & A & B & _). destruct b; [rewrite B | rewrite A]; reflexivity.
+  Qed.
+
+  Lemma top_write_spec e (w : world) cin r w' :
+    DRr (w_z w) cin (w_wire w ++ w_out w) -> (length (w_out w) <= bufsz)%nat ->
+    top_write e w = (r, w') ->
+    w_q w' = w_q w /\ w_disc w' = w_disc w /\
+    exists c, (c <= length e)%nat /\
+      DRr (w_z w') (cin ++ firstn c e) (w_wire w' ++ w_out w') /\ (length (w_out w') <= bufsz)%nat /\
+      (w_fault w' = NoFault -> (r < 0 /\ c = O) \/ (r = Z.of_nat c /\ (c <> O \/ e = []))) /\
+      (w_tx w = [] -> w_disc w = false -> w_fault w' = NoFault ->
+         w_tx w' = [] /\ w_error w' = w_error w /\ c = length e /\ r = Z.of_nat c).
+  Proof.
+    intros HDR Hout H. unfold top_write, compression_write in H.
+    destruct (is_nil e) eqn:En.
+    - apply is_nil_true in En. subst e. injection H as Er Ew. subst r w'. cbn.
+      split; [reflexivity|]. split; [reflexivity|]. exists O. cbn. rewrite app_nil_r.
+      split; [lia|]. split; [exact HDR|]. split; [exact Hout|].
+      split; [intros; right; split; auto|]. intros Ht _ _. repeat split; auto.
+    - apply is_nil_false in En.
+      destruct (compression_write_raw e (flush_of_code flush_code_write) w) as [r1 w1] eqn:E.
+      rewrite flush_of_write in E.
+      apply (cwr_spec _ _ _ cin) in E; auto; try (intros; discriminate).
+      destruct E as (Hq1 & Hd1 & c & Hc & HDR1 & Hout1 & Hres1 & Hcomp1).
+      injection H as Er Ew. subst r1.
+      assert (Hsame : w_q w' = w_q w1 /\ w_disc w' = w_disc w1 /\ w_z w' = w_z w1 /\ w_wire w' = w_wire w1 /\
+                      w_out w' = w_out w1 /\ w_fault w' = w_fault w1 /\ w_tx w' = w_tx w1 /\
+                      (0 <= r -> w_error w' = w_error w1)).
+      { subst w'. destruct ((r <? 0) && negb (recoverable (w_errno w1))) eqn:Eb; cbn; repeat split; auto.
+        intros Hr. apply andb_true_iff in Eb. destruct Eb as [Eb _]. apply Z.ltb_lt in Eb. lia. }
+      destruct Hsame as (A1 & A2 & A3 & A4 & A5 & A6 & A7 & A8).
+      split; [congruence|]. split; [congruence|].
+      exists c. split; [exact Hc|]. rewrite A3, A4, A5. split; [exact HDR1|]. split; [exact Hout1|].
+      split.
+      + intros Hf. rewrite A6 in Hf. destruct (Hres1 Hf eq_refl) as [X|[X Y]]; [left; exact X | right; split; auto].
+      + intros Ht Hdd Hf. rewrite A6 in Hf. destruct (Hcomp1 Ht Hdd Hf) as (T1 & T2 & T3 & _).
+        destruct (T3 eq_refl) as [T4 T5].
+        split; [congruence|]. split; [rewrite A8; [exact T2 | lia]|]. split; assumption.
+  Qed.
+
+  Lemma send_elems_spec es : forall (w : world),
+    OInvQ w es -> w_fault (send_elems es w) = NoFault ->
+    w_disc (send_elems es w) = w_disc w /\ OInv (send_elems es w) /\
+    (w_tx w = [] -> w_disc w = false ->
+       w_q (send_elems es w) = [] /\ w_tx (send_elems es w) = [] /\ w_error (send_elems es w) = w_error w).
+  Proof.
+    induction es as [|e rest IH]; intros w (cin & HDR & Hout & Hsub) Hf; cbn [CompressionModel.send_elems] in *.
+    - split; [reflexivity|]. split; [exists cin; cbn; auto|]. intros; cbn; auto.
+    - destruct (top_write e w) as [ret w1] eqn:E.
+      pose proof (top_write_light e w) as [F1 M1]. rewrite E in F1, M1. cbn [snd] in F1, M1.
+      apply (top_write_spec _ _ cin) in E; auto.
+      destruct E as (Hq1 & Hd1 & c & Hc & HDR1 & Hout1 & Hres1 & Hcomp1).
+      assert (Hsub1 : w_sub w1 = w_sub w) by (destruct F1 as (_ & _ & _ & _ & _ & X); exact X).
+      cbn [concat] in Hsub.
+      destruct (ret =? Z.of_nat (length e)) eqn:Efull.
+      + apply Z.eqb_eq in Efull.
+        pose proof (send_elems_light rest w1) as [_ M2].
+        assert (Hf1 : w_fault w1 = NoFault).
+        { destruct (w_fault w1) eqn:X; auto; exfalso; apply (proj1 M2); congruence. }
+        assert (Hce : c = length e).
+        { destruct (Hres1 Hf1) as [[X _]|[X _]]; lia. }
+        assert (I1 : OInvQ w1 rest).
+        { exists (cin ++ e). subst c. rewrite firstn_all in HDR1. split; [exact HDR1|]. split; [exact Hout1|].
+          rewrite Hsub1, Hsub, app_assoc. reflexivity. }
+        destruct (IH w1 I1 Hf) as (D2 & I2 & C2).
+        split; [congruence|]. split; [exact I2|].
+        intros Ht Hdd. destruct (Hcomp1 Ht Hdd Hf1) as (T1 & T2 & _).
+        rewrite Hd1 in C2. destruct (C2 T1 Hdd) as (Q1 & Q2 & Q3). repeat split; congruence.
+      + apply Z.eqb_neq in Efull.
+        destruct ((0 <? ret) && (ret <? Z.of_nat (length e))) eqn:Epart.
+        * apply andb_true_iff in Epart. destruct Epart as [P1 P2]. apply Z.ltb_lt in P1, P2.
+          cbn in Hf. cbn. split; [exact Hd1|].
+          destruct (Hres1 Hf) as [[X _]|[X _]]; [lia|].
+          split.
+          -- exists (cin ++ firstn c e). cbn. split; [exact HDR1|]. split; [exact Hout1|].
+             rewrite Hsub1, Hsub. subst ret. rewrite Nat2Z.id.
+             rewrite <- (firstn_skipn c e) at 1. rewrite <- !app_assoc. reflexivity.
+          -- intros Ht Hdd. destruct (Hcomp1 Ht Hdd Hf) as (_ & _ & T3 & T4). lia.
+        * cbn in Hf. cbn. split; [exact Hd1|].
+          assert (Hc0 : c = O).
+          { destruct (Hres1 Hf) as [[_ X]|[X Y]]; [exact X|].
+            apply andb_false_iff in Epart. destruct Epart as [P|P]; [apply Z.ltb_ge in P | apply Z.ltb_ge in P]; lia. }
+          subst c. cbn [firstn] in HDR1. rewrite app_nil_r in HDR1.
+          split.
+          -- exists cin. cbn. split; [exact HDR1|]. split; [exact Hout1|]. rewrite Hsub1. exact Hsub.
+          -- intros Ht Hdd. destruct (Hcomp1 Ht Hdd Hf) as (_ & _ & T3 & T4). lia.
+  Qed.
+
+  Lemma OInv_frame (w w' : world) :
+    w_z w' = w_z w -> w_wire w' = w_wire w -> w_out w' = w_out w -> w_sub w' = w_sub w -> w_q w' = w_q w ->
+    OInv w -> OInv w'.
+  Proof. intros A B C D E (cin & H1 & H2 & H3). exists cin. rewrite A, B, C, D, E. auto. Qed.
+
+  Lemma send_phase_spec (w : world) :
+    OInv w -> w_fault (send_phase w) = NoFault ->
+    OInv (send_phase w) /\
+    (w_tx w = [] -> w_disc w = false ->
+       w_q (send_phase w) = [] /\ w_out (send_phase w) = [] /\ w_tx (send_phase w) = [] /\
+       dec (w_wire (send_phase w)) = w_sub (send_phase w) /\ fp (w_wire (send_phase w))).
+  Proof.
+    intros I Hf. unfold send_phase in *.
+    destruct (w_disc w) eqn:Ed; [split; [exact I | intros; discriminate]|].
+    set (w1 := send_elems (w_q w) w) in *.
+    unfold compression_flush in *.
+    set (fl := flush_of_code (if w_dont_reset w1 then flush_code_dont_reset else flush_code_reset)) in *.
+    pose proof (cwr_light [] fl w1) as [F2 M2].
+    destruct (compression_write_raw [] fl w1) as [r w2] eqn:E. cbn [snd] in F2, M2.
+    assert (Hfin : w_fault w2 = NoFault).
+    { destruct (w_error w2 =? 0); [exact Hf|].
+      unfold conn_disconnect in Hf. destruct (w_disc (set_error ECONNABORTED w2)); cbn in Hf; exact Hf. }
+    assert (Hf1 : w_fault w1 = NoFault).
+    { destruct (w_fault w1) eqn:X; auto; exfalso; apply (proj1 M2); congruence. }
+    destruct (send_elems_spec (w_q w) w I Hf1) as (D1 & (cin & HDR1 & Hout1 & Hsub1) & C1).
+    fold w1 in D1, HDR1, Hout1, Hsub1, C1.
+    assert (Hisf : is_flush fl = true) by (subst fl; apply flush_of_flush).
+    apply (cwr_spec _ _ _ cin) in E; auto; try (intros; congruence).
+    destruct E as (Hq2 & Hd2 & c & Hc & HDR2 & Hout2 & _ & Hcomp2).
+    cbn in Hc. assert (c = O) by lia. subst c. cbn [firstn] in HDR2. rewrite app_nil_r in HDR2.
+    assert (Hsub2 : w_sub w2 = w_sub w1) by (destruct F2 as (_ & _ & _ & _ & _ & X); exact X).
+    assert (I2 : OInv w2).
+    { exists cin. split; [exact HDR2|]. split; [exact Hout2|]. rewrite Hq2, Hsub2. exact Hsub1. }
+    set (w3 := if w_error w2 =? 0 then w2 else conn_disconnect (set_error ECONNABORTED w2)) in *.
+    assert (Hsame : w_z w3 = w_z w2 /\ w_wire w3 = w_wire w2 /\ w_out w3 = w_out w2 /\ w_sub w3 = w_sub w2 /\
+                    w_q w3 = w_q w2 /\ w_tx w3 = w_tx w2).
+    { subst w3. destruct (w_error w2 =? 0); [repeat split|].
+      unfold conn_disconnect. destruct (w_disc (set_error ECONNABORTED w2)); cbn; repeat split. }
+    destruct Hsame as (S1 & S2 & S3 & S4 & S5 & S6).
+    split; [eapply OInv_frame; eauto|].
+    intros Ht _. destruct (C1 Ht Ed) as (Q1 & T1 & E1).
+    rewrite D1 in Hcomp2. destruct (Hcomp2 T1 Ed Hfin) as (T2 & E2 & _ & Hfl2).
+    destruct (Hfl2 Hisf) as (Hdec & Hemp & Hfp).
+    rewrite S5, S3, S6, S2, S4. split; [congruence|]. split; [exact Hemp|]. split; [exact T2|].
+    split; [|exact Hfp]. rewrite Hdec, Hsub2, Hsub1, Q1. cbn. rewrite app_nil_r. reflexivity.
+  Qed.
+
+  (* ------------------------------------------------------------------ the read side: light lemmas *)
+  Definition rlight (w w' : world) : Prop := rside_frame w w' /\ mono w w'.
+  Lemma rlight_refl (w : world) : rlight w w. Proof. split; [apply rside_refl | apply mono_refl]. Qed.
+  Lemma rlight_trans (a b c : world) : rlight a b -> rlight b c -> rlight a c.
+  Proof. intros [A B] [C D]. split; [eapply rside_trans | eapply mono_trans]; eauto. Qed.
+  Lemma rlight_raise f (w : world) : rlight w (raise f w).
+  Proof. split; [|apply raise_mono]. unfold raise, rside_frame. destruct (w_fault w); cbn; repeat split. Qed.
+  Lemma rlight_disc (w : world) : rlight w (conn_disconnect w).
+  Proof. split; [|apply disc_mono]. unfold conn_disconnect, rside_frame. destruct (w_disc w); cbn; repeat split. Qed.
+  Ltac rl := split; [unfold rside_frame | unfold mono]; cbn; tauto.
+
+  Lemma sock_read_light n (w : world) : rlight w (snd (sock_read n w)).
+  Proof.
+    unfold sock_read. destruct (w_disc w); [cbn; rl|].
+    destruct (w_rx w) as [|[bs| |] rest]; cbn; try rl.
+  Qed.
+
+  Lemma conn_decompress_light fresh len (w : world) : rlight w (snd (conn_decompress fresh len w)).
+  Proof.
+    unfold conn_decompress.
+    destruct (inflate_step _ _ _) as [[[i' k] outp] st].
+    destruct (_ || _); [cbn; apply rlight_raise|].
+    destruct st; cbn [snd]; try destruct (is_nil _); try rl.
+    eapply rlight_trans; [|apply rlight_disc]. rl.
+  Qed.
+
+  Lemma read_loop_light fuel : forall len (w : world), rlight w (snd (read_loop fuel len w)).
+  Proof.
+    induction fuel as [|f IH]; intros len w; cbn [CompressionModel.read_loop].
+    - cbn. apply rlight_raise.
+    - pose proof (sock_read_light bufsz w) as L1.
+      destruct (sock_read bufsz w) as [[n bs] w1]. cbn [snd] in L1.
+      destruct (n <=? 0); [exact L1|].
+      pose proof (conn_decompress_light bs len w1) as L2.
+      destruct (conn_decompress bs len w1) as [[ret outp] w2]. cbn [snd] in L2.
+      destruct (_ && _); cbn [snd]; eapply rlight_trans; eauto. eapply rlight_trans; eauto.
+  Qed.
+
+  Lemma compression_read_light len (w : world) : rlight w (snd (compression_read len w)).
+  Proof.
+    unfold compression_read. destruct (w_in w); [apply conn_decompress_light | apply read_loop_light].
+  Qed.
+
+  Lemma read_phase_light (w : world) : rlight w (read_phase w).
+  Proof.
+    unfold read_phase. destruct (w_disc w); [apply rlight_refl|].
+    destruct (_ || _); [|apply rlight_refl].
+    pose proof (compression_read_light msgsz w) as L.
+    destruct (compression_read msgsz w) as [[ret bs] w1]. cbn [snd] in L.
+    destruct (0 <? ret); [eapply rlight_trans; [exact L|]; rl|].
+    destruct (negb _); [eapply rlight_trans; [exact L|]; eapply rlight_trans; [|apply rlight_disc]; rl|].
+    destruct (ret =? 0); [|exact L].
+    eapply rlight_trans; [exact L|]; eapply rlight_trans; [|apply rlight_disc]; rl.
+  Qed.
+
+  (* ------------------------------------------------------------------ whole runs: the write side *)
+  Lemma run_once_mono (w : world) : mono w (run_once w).
+  Proof.
+    unfold run_once. eapply mono_trans; [apply send_phase_light|].
+    eapply mono_trans; [apply read_phase_light|]. unfold mono; cbn; tauto.
+  Qed.
+  Lemma step_mono (w : world) o : mono w (step w o).
+  Proof.
+    destruct o; cbn; try (unfold mono; cbn; tauto); [|apply run_once_mono].
+    destruct (w_disc w); unfold mono; cbn; tauto.
+  Qed.
+  Lemma run_mono ops : forall (w : world), mono w (run w ops).
+  Proof.
+    induction ops as [|o ops IH]; intros w; cbn; [apply mono_refl|].
+    eapply mono_trans; [apply step_mono | apply IH].
+  Qed.
+  Lemma mono_nofault (w w' : world) : mono w w' -> w_fault w' = NoFault -> w_fault w = NoFault.
+  Proof. intros [M _] H. destruct (w_fault w) eqn:E; auto; exfalso; apply M; congruence. Qed.
+
+  Lemma run_once_OInv (w : world) : OInv w -> w_fault (run_once w) = NoFault -> OInv (run_once w).
+  Proof.
+    intros I Hf. unfold run_once in *. cbn in Hf.
+    pose proof (read_phase_light (send_phase w)) as [F M].
+    assert (Hf1 : w_fault (send_phase w) = NoFault) by (eapply mono_nofault; eauto).
+    destruct (send_phase_spec w I Hf1) as [I1 _].
+    destruct F as (A1 & A2 & A3 & A4 & A5 & A6 & A7).
+    eapply OInv_frame; [| | | | |exact I1]; cbn; assumption.
+  Qed.
+
+  Lemma step_OInv (w : world) o : OInv w -> w_fault (step w o) = NoFault -> OInv (step w o).
+  Proof.
+    intros I Hf. destruct o; cbn in *.
+    - destruct (w_disc w); [exact I|]. destruct I as (cin & H1 & H2 & H3). exists cin. cbn.
+      split; [exact H1|]. split; [exact H2|]. rewrite H3, concat_app. cbn. rewrite app_nil_r, app_assoc. reflexivity.
+    - eapply OInv_frame; [| | | | |exact I]; reflexivity.
+    - eapply OInv_frame; [| | | | |exact I]; reflexivity.
+    - apply run_once_OInv; assumption.
+  Qed.
+
+  Lemma run_OInv ops : forall (w : world), OInv w -> w_fault (run w ops) = NoFault -> OInv (run w ops).
+  Proof.
+    induction ops as [|o ops IH]; intros w I Hf; cbn in *; [exact I|].
+    apply IH; [|exact Hf]. apply step_OInv; [exact I|].
+    eapply mono_nofault; [apply run_mono | exact Hf].
+  Qed.
+
+  Lemma init_OInv dr e0 : OInv (init_world z0 i0 dr e0).
+  Proof. exists []. cbn. split; [constructor|]. split; [lia | reflexivity]. Qed.
+
+  (* safety: whatever the transport accepted inflates to a prefix of the plain stream *)
+  Lemma OInv_prefix (w : world) : OInv w -> prefix (dec (w_wire w)) (w_sub w).
+  Proof.
+    intros (cin & H1 & _ & H3).
+    eapply prefix_trans; [apply (zc_dec_mono _ _ _ _ _ _ _ _ _ HC (w_wire w) (w_out w))|].
+    eapply prefix_trans; [eapply (zc_d_sound _ _ _ _ _ _ _ _ _ HC); exact H1|].
+    rewrite H3. apply prefix_app.
+  Qed.
+
+  Lemma transparent_out_safe ops dr e0 :
+    let w := run (init_world z0 i0 dr e0) ops in
+    w_fault w = NoFault -> prefix (dec (w_wire w)) (w_sub w).
+  Proof. intros w Hf. apply OInv_prefix. apply run_OInv; [apply init_OInv | exact Hf]. Qed.
+
+  (* completeness: an iteration in which the transport refuses nothing delivers everything submitted so far *)
+  Lemma transparent_out_complete ops dr e0 :
+    let w := run (init_world z0 i0 dr e0) ops in
+    let w' := run_once w in
+    w_fault w' = NoFault -> w_disc w = false -> w_tx w = [] ->
+    dec (w_wire w') = w_sub w' /\ w_sub w' = w_sub w /\ w_q w' = [] /\ w_out w' = [] /\ fp (w_wire w').
+  Proof.
+    intros w w' Hf Hd Ht. subst w'. unfold run_once in *. cbn in Hf. cbn.
+    pose proof (read_phase_light (send_phase w)) as [F M].
+    assert (Hf1 : w_fault (send_phase w) = NoFault) by (eapply mono_nofault; eauto).
+    assert (I : OInv w).
+    { apply run_OInv; [apply init_OInv|]. eapply mono_nofault; [apply send_phase_light | exact Hf1]. }
+    destruct (send_phase_spec w I Hf1) as [_ C]. destruct (C Ht Hd) as (Q & O & T & D & P).
+    destruct F as (A1 & A2 & A3 & A4 & A5 & A6 & A7).
+    pose proof (send_phase_light w) as [(_ & _ & _ & _ & _ & S) _].
+    rewrite A5, A7, A3, A2. repeat split; congruence.
+  Qed.
+
+  (* ------------------------------------------------------------------ the read side *)
+  Definition resumable (i : ist) (rest : list Z) : Prop :=
+    forall room' i'' k' outp' st', (0 < room')%nat -> inflate_step i rest room' = (i'', k', outp', st') -> outp' <> [].
+  Definition pend_ok (w : world) : Prop :=
+    match w_in w with Some rest => rest <> [] /\ resumable (w_i w) rest | None => True end.
+  (* zs: everything the peer has sent so far; fed: what has been handed to the parser *)
+  Definition IInvP (w : world) (zs fed : list Z) : Prop :=
+    exists zin, IRr (w_i w) zin fed /\ zs = zin ++ undecoded (w_in w) (w_rx w) /\ pend_ok w.
+  Definition IInv (w : world) (zs : list Z) : Prop := IInvP w zs (w_fed w).
+
+  Lemma rx_stream_app a b : rx_stream (a ++ b) = rx_stream a ++ rx_stream b.
+  Proof. induction a as [|[bs| |] a IH]; cbn; auto. rewrite IH, app_assoc. reflexivity. Qed.
+
+  Lemma sock_read_spec n (w : world) r bs w1 :
+    (0 < n)%nat -> sock_read n w = (r, bs, w1) ->
+    w_i w1 = w_i w /\ w_in w1 = w_in w /\ w_fed w1 = w_fed w /\ w_disc w1 = w_disc w /\ w_fault w1 = w_fault w /\
+    w_error w1 = w_error w /\
+    ((0 < r /\ r = Z.of_nat (length bs) /\ bs <> [] /\ (length bs <= n)%nat /\
+      rx_stream (w_rx w) = bs ++ rx_stream (w_rx w1) /\ (only_data (w_rx w) -> only_data (w_rx w1))) \/
+     (r <= 0 /\ bs = [] /\ rx_stream (w_rx w1) = rx_stream (w_rx w) /\
+      (w_disc w = false -> only_data (w_rx w) -> w_rx w = [] /\ r = -1 /\ w_errno w1 = EAGAIN /\ w_rx w1 = []))).
+  Proof.
+    intros Hn H. unfold sock_read in H.
+    destruct (w_disc w) eqn:Ed.
+    { injection H as <- <- <-. cbn. repeat split; auto. right. repeat split; auto; try lia. all: intros; discriminate. }
+    destruct (w_rx w) as [|[cs| |] rest] eqn:Erx.
+    - injection H as <- <- <-. cbn. repeat split; auto. right. repeat split; auto; lia.
+    - injection H as <- <- <-. cbn [w_i w_in w_fed w_disc w_fault w_error w_rx set_rx].
+      repeat split; auto.
+      destruct cs as [|c cs'].
+      + right. rewrite firstn_nil, skipn_nil. cbn. repeat split; auto; try lia.
+        all: intros _ Ho; inversion Ho; subst; cbn in *; congruence.
+      + left. assert (Hne : firstn n (c :: cs') <> []) by (destruct n; [lia | cbn; congruence]).
+        assert (Hl : (length (firstn n (c :: cs')) <= n)%nat) by (rewrite firstn_length; lia).
+        split; [destruct (firstn n (c :: cs')); cbn; [congruence | lia]|].
+        split; [reflexivity|]. split; [exact Hne|]. split; [exact Hl|].
+        destruct (is_nil (skipn n (c :: cs'))) eqn:En.
+        * apply is_nil_true in En. split.
+          -- cbn [rx_stream]. rewrite <- (firstn_skipn n (c :: cs')) at 1. rewrite En, app_nil_r. reflexivity.
+          -- intros Ho. inversion Ho; assumption.
+        * apply is_nil_false in En. split.
+          -- cbn [rx_stream]. rewrite <- (firstn_skipn n (c :: cs')) at 1. rewrite app_assoc. reflexivity.
+          -- intros Ho. inversion Ho; subst. constructor; assumption.
+    - injection H as <- <- <-. cbn. repeat split; auto. right. repeat split; auto; try lia.
+      all: intros _ Ho; inversion Ho; subst; contradiction.
+    - injection H as <- <- <-. cbn. repeat split; auto. right. repeat split; auto; try lia.
+      all: intros _ Ho; inversion Ho; subst; contradiction.
   Qed.
 End Staging.
